@@ -204,12 +204,12 @@ func TestClone(t *testing.T) {
 	pk.Class("clone:interpreter-values-have-no-Clone(vm-only)")
 	rapid.Check(t, func(rt *rapid.T) {
 		ty := genType(rt, drawDepth(rt))
-		if rapid.IntRange(0, 2).Draw(rt, "wrap") == 0 && ty.IsScalar() {
+		if ty.IsScalar() && rapid.IntRange(0, 7).Draw(rt, "wrap") != 0 {
 			ty = hs.TList(ty) // scalar roots have no history worth the name
 		}
 		v := genValue(rt, ty)
 		var mo, mc hs.Value = hs.DeepCopy(v), hs.DeepCopy(v)
-		n := rapid.IntRange(0, 12).Draw(rt, "steps")
+		n := rapid.IntRange(1, 12).Draw(rt, "steps")
 		var acts []Action
 		for i := 0; i < n; i++ {
 			onClone := rapid.Bool().Draw(rt, "onclone")
